@@ -49,7 +49,7 @@ value that does not fit (3) and then with one that does (1).  Past the periodic-
 both upserts are still queued at the closing `sync`. -/
 example : Spec.fitsC03Sync 4 none none (fun _ v => v) (Sync.trace
     { cap := some 4, hasWeigher := true, w := fun _ v => v }
-    [.adv 600000000, .ins 1 2, .sync, .snap, .ins 2 3, .snap, .ins 2 1, .freq 2, .sync, .snap])
+    [.adv Gen.PAST_SYNC_INTERVAL_NS, .ins 1 2, .sync, .snap, .ins 2 3, .snap, .ins 2 1, .freq 2, .sync, .snap])
     = true := by
   decide +kernel
 
@@ -63,7 +63,7 @@ example : Spec.fitsC03Sync 4 none none (fun _ v => v) (Sync.trace
 /-- In both regimes the closing snapshot holds key 1 and key 2 with its last value (the check
 is not satisfied vacuously). -/
 example : ((Sync.trace { cap := some 4, hasWeigher := true, w := fun _ v => v }
-    [.adv 600000000, .ins 1 2, .sync, .snap, .ins 2 3, .ins 2 1, .sync, .snap]).map
+    [.adv Gen.PAST_SYNC_INTERVAL_NS, .ins 1 2, .sync, .snap, .ins 2 3, .ins 2 1, .sync, .snap]).map
       (fun oo => match oo.2 with
         | .snap sn => sn.entries.map (fun e => (e.key, e.val, e.weight))
         | _ => [])).getLast? = some [(1, 2, 2), (2, 1, 1)] := by
@@ -79,7 +79,7 @@ example : ((Sync.trace { cap := some 4, hasWeigher := true, w := fun _ v => v }
 /-- With ttl and tti, an entry that expires inside the window is exempt. -/
 example : Spec.fitsC03Sync 3 (some 5) (some 3) (fun _ _ => 1) (Sync.trace
     { cap := some 3, ttl := some 5, tti := some 3 }
-    [.adv 600000000, .ins 1 1, .adv 2, .ins 3 3, .adv 1, .sync, .snap, .ins 2 7, .ins 2 8,
+    [.adv Gen.PAST_SYNC_INTERVAL_NS, .ins 1 1, .adv 2, .ins 3 3, .adv 1, .sync, .snap, .ins 2 7, .ins 2 8,
      .sync, .snap, .adv 3, .sync, .snap, .ins 4 4, .sync, .snap]) = true := by
   decide +kernel
 
